@@ -258,6 +258,8 @@ structure World (V : Type) where
   /-- `value.items()` of a dict -/
   pairs : V → List (V × V)
   ofList : List V → V
+  /-- `cls.__origin__(result)` at the end of `_parse_tuple_args` (a tuple from a list: cannot fail) -/
+  ofTuple : List V → V
   ofPairs : List (V × V) → V
   /-- `cls.__origin__(value)` -/
   construct : Ty → V → M V
@@ -349,7 +351,7 @@ def tupleArgs (W : World V) (L : Legacy) (o : Opts) (ts : List Ty) (v : V) : M V
     | .typed t => tupleExtra W o t ((W.items v).drop ts.length) ts.length r
     | .allow => pure (r ++ (W.items v).drop ts.length)
     | _ => pure r
-  pure (W.ofList r)
+  pure (W.ofTuple r)
 
 /-! ### Rule._parse_map_args — rule.py:1976-2034 -/
 
